@@ -373,6 +373,10 @@ func check16CanonCombo(c Case16, r *core.Rec) {
 			return
 		}
 	}
+	if _, _, _, has := splitQuery(got.u.Href(false)); has != func() bool { _, _, _, h := splitQuery(want.u.Href(false)); return h }() {
+		r.Failf("%s: sorting changed whether the URL has a query at all: %s vs %s", where16(c), got.u.Href(false), want.u.Href(false))
+		return
+	}
 	before := collapseList(spec.ParseURLEncoded(want.u.Query()))
 	if sortAmbiguous(before) || !validUTF8List(before) {
 		return
@@ -528,6 +532,11 @@ func check16Sort(c Case16, r *core.Rec) {
 			r.Failf("%s: sorting changed %s: %q -> %q", where16(c), obsName(i), w[i], g[i])
 			return
 		}
+	}
+	// sorting reorders parameters: it neither adds nor removes the query itself
+	if _, _, _, has := splitQuery(got.u.Href(false)); has != func() bool { _, _, _, h := splitQuery(d0.u.Href(false)); return h }() {
+		r.Failf("%s: sorting changed whether the URL has a query at all: %s vs %s", where16(c), got.u.Href(false), d0.u.Href(false))
+		return
 	}
 	before := collapseList(spec.ParseURLEncoded(d0.u.Query()))
 	if sortAmbiguous(before) || (mode != 0 && !validUTF8List(before)) {
